@@ -188,11 +188,40 @@ func ruleODBlock(c *Ctx) {
 	}
 	def, poss := successReturns(fn)
 	succ := append(def, poss...)
-	if len(succ) != 1 {
-		c.Unk(fnKey(fn)+"/success-return", P.pos(fn.Pos()), fmt.Sprintf("expected exactly one success return, found %d", len(succ)))
+	if len(succ) == 0 {
+		c.Unk(fnKey(fn)+"/success-return", P.pos(fn.Pos()), "no success return found")
 		return
 	}
+	// every success return must come after the whole block has been written: a success return that some write
+	// does not dominate reports a block as written that was not (the caller then discards the records)
 	ret := succ[0]
+	for _, r := range succ {
+		nd := 0
+		for _, e := range evs {
+			if dominatesInstr(e.Instr, r) {
+				nd++
+			}
+		}
+		if nd < len(evs) || len(evs) == 0 {
+			c.Bad(fmt.Sprintf("%s/success-without-writes@%s", fnKey(fn), P.pos(r.Pos())), P.pos(r.Pos()), fmt.Sprintf("WriteBlock can return success here after only %d of its %d writes: the caller treats the block as written and drops the records it held", nd, len(evs)))
+		} else {
+			ret = r
+		}
+	}
+	if len(succ) > 1 {
+		// decide the layout at the return that all writes dominate; the others were judged above
+		for _, r := range succ {
+			all := true
+			for _, e := range evs {
+				if !dominatesInstr(e.Instr, r) {
+					all = false
+				}
+			}
+			if all {
+				ret = r
+			}
+		}
+	}
 	// all events dominate the success return and are totally ordered
 	var ordered []writeEvent
 	for _, e := range evs {
